@@ -88,6 +88,32 @@ func (fa *FullApp) ReimportModule(name, storeKey string) (diff FAStoreDiff, expo
 	return diff, exported, nil
 }
 
+// ReimportModuleCtx is the same round trip on a context the caller holds (no block of its own).
+func (fa *FullApp) ReimportModuleCtx(ctx sdk.Context, name, storeKey string) (err error) {
+	defer func() {
+		if r := recover(); r != nil {
+			err = fmt.Errorf("genesis round trip of %s panicked: %v", name, r)
+		}
+	}()
+	m, ok := fa.app.ModuleManager.Modules[name]
+	if !ok {
+		return fmt.Errorf("no module %s", name)
+	}
+	if hg, ok := m.(module.HasGenesis); ok {
+		exported := hg.ExportGenesis(ctx, fa.app.AppCodec())
+		fa.wipeStore(ctx, storeKey)
+		hg.InitGenesis(ctx, fa.app.AppCodec(), exported)
+		return nil
+	}
+	if hg, ok := m.(module.HasABCIGenesis); ok {
+		exported := hg.ExportGenesis(ctx, fa.app.AppCodec())
+		fa.wipeStore(ctx, storeKey)
+		hg.InitGenesis(ctx, fa.app.AppCodec(), exported)
+		return nil
+	}
+	return fmt.Errorf("module %s has no genesis", name)
+}
+
 func (fa *FullApp) wipeStore(ctx sdk.Context, storeKey string) {
 	k := fa.kvKeys()[storeKey]
 	st := ctx.KVStore(k)
